@@ -755,17 +755,23 @@ func (q *Queue) storeNewMessage(meta *QueueMetadata, header textproto.Header, bo
 		return nil, err
 	}
 
-	if err := q.updateMetadataOnDisk(meta); err != nil {
+	// Header and body should be on disk before the meta-data file makes the
+	// message visible to readDiskQueue.
+	if err := headerFile.Sync(); err != nil {
 		q.tryRemoveDanglingFile(id + ".body")
 		q.tryRemoveDanglingFile(id + ".header")
 		return nil, err
 	}
 
-	if err := headerFile.Sync(); err != nil {
+	if err := bodyFile.Sync(); err != nil {
+		q.tryRemoveDanglingFile(id + ".body")
+		q.tryRemoveDanglingFile(id + ".header")
 		return nil, err
 	}
 
-	if err := bodyFile.Sync(); err != nil {
+	if err := q.updateMetadataOnDisk(meta); err != nil {
+		q.tryRemoveDanglingFile(id + ".body")
+		q.tryRemoveDanglingFile(id + ".header")
 		return nil, err
 	}
 
